@@ -6,12 +6,13 @@ import math
 import random
 
 import common as C
+import c03_ff as B
 
 PID = "C03"
-DRIVER = [("C03", "TfPwaV.Model.Superpose", "Superpose.handle")]
-LEAN_TARGETS = ["TfPwaV.Props.C03"]
-PROP_MODULES = ["TfPwaV.Props.C03"]
-ALL_MODULES = ["TfPwaV.Model.Superpose", "TfPwaV.Proofs.Superpose", "TfPwaV.Props.C03"]
+DRIVER = [("C03", "TfPwaV.Model.Superpose", "Superpose.handle"), ("C03b", "TfPwaV.Model.FitFrac", "FitFrac.handle")]
+LEAN_TARGETS = ["TfPwaV.Props.C03", "TfPwaV.Props.C03b"]
+PROP_MODULES = ["TfPwaV.Props.C03", "TfPwaV.Props.C03b"]
+ALL_MODULES = ["TfPwaV.Model.Superpose", "TfPwaV.Proofs.Superpose", "TfPwaV.Props.C03", "TfPwaV.Model.FitFrac", "TfPwaV.Props.C03b"]
 ASSUMPTIONS = [
     "theorems are over an arbitrary commutative ring / field K (exact arithmetic); the implementation is IEEE double: "
     "superposition is compared at 1e-12 relative, fractions at 1e-10 absolute, sum-rule residual at 1e-9",
@@ -23,8 +24,20 @@ ASSUMPTIONS = [
     "rule is stated (and checked) under the hypothesis that the named resonances' chain sets are pairwise disjoint",
     "fit fractions are computed from the full selection; the library's own restore logic after a fit-fraction call is "
     "property C17's subject (the harness restores chains_idx / not_full / parameters itself)",
-    "gradients returned by the fit-fraction routines are only checked for batch independence (TF autodiff is a "
-    "parameter of the model, see C07)",
+    "gradients: TF autodiff is a parameter of the model (see C07) — the per-event tape gradients are handed to the model, "
+    "which accumulates them batch by batch and applies the quotient rule as coded; frac_grad_table_is_deriv / "
+    "ff_grad_is_deriv (C03b, from C09 frac_grad_is_deriv) assume the per-event gradients are the derivatives of the densities",
+    "C03b models the dictionaries cached_int / cached_grad of FitFractions by position (i, j) in res; the code keys them by "
+    "str(res[i]): the two agree when the names str(res[i]) are pairwise distinct (a repeated name collapses keys in the code)",
+    "C03b exact runs use a stub amplitude object (integer tensors, integer couplings held in tf.Variables, dyadic weights) on "
+    "top of the library's own DecayGroup selection, so that every partial sum is an integer < 2^53 and the Lean Float model "
+    "must reproduce cached integrals, gradients, fractions and gradient tables bit for bit (==); tf.reduce_sum / the tape "
+    "are exact on such inputs",
+    "a value that is neither str, BaseParticle nor int inside the res list (nested list, tuple, None, float) is one model "
+    "value Item.other: set_used_res raises TypeError before touching chains_idx; so nested lists are legal exactly one level "
+    "deep (partial_weight(combine=[[...], ...])), a list-valued res[i] of FitFractions / cal_fitfractions raises",
+    "get_frac's sqrt(g E g) error bars and NumberError formatting are C09's subject; C03b compares get_frac_diag_sum's error "
+    "with |sum of diagonal gradients| at 1e-9 only",
 ]
 
 TOL_AMP = 1e-12
@@ -726,6 +739,8 @@ def correspond(ctx, res):
         {"group": o["g"].name, "chains": [str(c) for c in o["g"].dg.chains], "ff": {str(k): v for k, v in o["ff"][0]["frac"]} if "frac" in o["ff"][0] else o["ff"][0]},
         {"selection_trace": _seq_line(o["g"], o["sel"][-1]["seq"]), "impl": o["sel"][-1]["states"]},
     ]
+    # C03b: FitFractions bookkeeping (exact on integer stubs, 1e-12 on the real amplitude), argument handling
+    B.correspond(ctx, res, obs)
 
 
 # ---------------------------------------------------------------------------------------------
@@ -919,6 +934,7 @@ def search(ctx, res):
                         g.name, a["method"], a["batch"], b["method"], b["batch"], d), {"group": g.name, "methods": [a["method"], b["method"]], "weighted": wt})
     res.coverage["search_identities"] = n_id
     res.coverage["search_worst_residuals"] = worst
+    B.search(ctx, res, obs)
 
 
 def replay(ctx, payload):
@@ -937,7 +953,7 @@ def replay(ctx, payload):
 
 
 MANIFEST = {
-    "text": "Lean theorems over an arbitrary commutative ring / field: the amplitude under any chain selection is the sum of the selected single-chain amplitudes (permutation- and duplicate-insensitive), rescaling one coupling rescales exactly that chain's term, set_used_res selects exactly the chains containing a named resonance (plus listed indices; only=True variant), integrals are independent of the batch partition for every batch size, and the fit-fraction table of cal_fitfractions / FitFractions sums to one whenever the named resonances' chain sets are pairwise disjoint and the total is non-zero. The model is tied to DecayGroup / fitfractions.py by exact comparison of chains_idx traces and 1e-12 / 1e-10 comparison of amplitudes, densities and fraction tables on three real decay groups.",
-    "note": "Model = TfPwaV.Superpose (selection logic exact; numeric part one text for Float and for the proofs). Inputs to the numeric model are the implementation's own single-chain tensors, so what a chain's amplitude is (line shapes, D-functions) is outside C03. Fit fractions are taken from the full selection and from one partial selection (batch independence there is checked by the search only); the library's restore logic as such is C17. Gradients only checked for batch independence. Trusted: Lean kernel, standard axioms, harness, IEEE double ~ real arithmetic.",
-    "technique": "Lean 4 proof (list induction / ring identities over any commutative ring; Perm + Nodup for the selection logic) + differential correspondence with the real DecayGroup and fit-fraction routines over all chain subsets and batch sizes + direct identity search",
+    "text": "Lean theorems over an arbitrary commutative ring / field: the amplitude under any chain selection is the sum of the selected single-chain amplitudes (permutation- and duplicate-insensitive), rescaling one coupling rescales exactly that chain's term, set_used_res selects exactly the chains containing a named resonance (plus listed indices; only=True variant; bare values and one-level lists; TypeError with untouched state exactly when an element is no particle / int — res_grouping: a list selects the union of its parts), integrals are independent of the batch partition for every batch size, and the fit-fraction table of cal_fitfractions / FitFractions sums to one whenever the named resonances' chain sets are pairwise disjoint and the total is non-zero. C03b puts the FitFractions bookkeeping itself into the model (init_res_table key order, append_int per batch with weights and the selection active at the call, integral(batch), get_frac_grad, get_frac_diag_sum, cal_fitfractions' per-batch sums, partial_weight / partial_weight_interference / BaseAmplitudeModel.partial_weight with restore) and proves for every group, res list, weighted sample and batching (None or any b >= 1): integral_state / calFF_state (cached integrals, total and every gradient component equal the whole-sample sums), interference_definition (entry (i,j) = A_ij/A - A_i/A - A_j/A; = integrated 2Re(A_i conj A_j)/A when no chain carries both), frac_table_symmetric, sum_rule_table / sum_rule_table_old (diagonal + interference entries = 1 for a duplicate-free partition), sum_rule_groups (the same for nested resonance groups as partial_weight integrates them), pwi_expansion, diag_sum_unnormalised, and over the reals frac_grad_table_is_deriv / ff_grad_is_deriv (every entry of the gradient table is the derivative of the corresponding fraction, from C09's frac_grad_is_deriv; per-event tape gradients assumed correct). The model is tied to DecayGroup / fitfractions.py by exact comparison of chains_idx traces and argument-handling traces, 1e-12 / 1e-10 comparison of amplitudes, densities and fraction tables on five real decay groups, and bit-exact comparison of cached integrals, gradients, fraction and gradient tables of the real FitFractions / cal_fitfractions / cal_fitfractions_no_grad / fit_fractions run on integer-valued stub amplitudes.",
+    "note": "Models = TfPwaV.Superpose (selection logic exact; numeric part one text for Float and for the proofs) and TfPwaV.FitFrac (FitFractions state machine over an abstract scalar; densities and per-event gradients are parameters). Inputs to the numeric model are the implementation's own single-chain tensors, so what a chain's amplitude is (line shapes, D-functions) is outside C03. Validated only (not proved): TF autodiff / reduce_sum, the stub-vs-real amplitude gap (real AmplitudeModel runs of the C03b model are 1e-12 comparisons on group g0, g1/g3 in the thorough tier), ConfigLoader.cal_fitfractions(method='new') (res default = sorted names minus exclude_res, keys, restore: observed, not modelled beyond the res list), dictionary-key collisions for repeated names, get_frac's error bars (C09). get_frac_diag_sum returns the un-normalised sum of the diagonal integrals (mirrored, theorem diag_sum_unnormalised). The library's restore logic as such is C17. Trusted: Lean kernel, standard axioms, harness, IEEE double ~ real arithmetic.",
+    "technique": "Lean 4 proof (list induction / ring identities over any commutative ring; Perm + Nodup for the selection logic; HasDerivAt quotient rule reused from C09) + differential correspondence with the real DecayGroup and fit-fraction routines over all chain subsets and batch sizes (bit-exact on integer stub amplitudes, 1e-12 on real amplitudes) + direct identity search with a numpy oracle",
 }
